@@ -126,7 +126,9 @@ func (c *Ctx) Guard(rule string, fn *ssa.Function, sites []ssa.Instruction, site
 					}
 					return false
 				},
-				Kill: kill,
+				Kill:     kill,
+				GenAtoms: nd.Atoms,
+				R:        R,
 			}
 			// the common kill predicate invalidates facts about (lock-protected) state, i.e.
 			// atom needs; "X happened" needs are only killed when they say so themselves
